@@ -270,7 +270,7 @@ def _sym_arr(tag, D, G):
     return a
 
 
-ARRAY_CALLS = [("S", "R"), ("S", "RR"), ("S", "RQ"), ("S", "QR"), ("S", "RRQ"), ("S", "RQR"), ("S", "QRT"), ("S", "TRQ"),
+ARRAY_CALLS = [("S", "R"), ("S", "RR"), ("S", "RQ"), ("S", "QR"), ("S", "RRQ"), ("S", "RQQ"), ("S", "RQR"), ("S", "QRT"), ("S", "TRQ"), ("S", "RRR"),
                ("C", "RQ"), ("C", "QR"), ("C", "RR"), ("C", "QQ"), ("C", "RT")]
 
 
